@@ -23,7 +23,7 @@ RULE = ("seeded random (helper, arguments, dtype, group layout) cases: every hel
         "default-yielding group; distinct = distinct (helper, args, dtype, NA presence, default-yielding?) signatures")
 ASSUMPTIONS = [
     "reference statistics use exact rational arithmetic; float results are compared with rel 1e-9 / abs 1e-9*max|x| (var: *max|x|^2)",
-    "not judged (statement does not fix them): count_unique/mode with missing values kept, ddof >= n, +-inf inside mean/median/quantile/std/var/sum, min/max of dates or strings with missing values kept",
+    "not judged (statement does not fix them): count_unique/mode with missing values kept, ddof >= n, +-inf inside quantile/std/var (sum, mean and median with infinities follow IEEE arithmetic and are judged), min/max of dates or strings with missing values kept",
     "all/any: a missing float (NaN) is truthy (NumPy truthiness, which the helper documents it uses); all/any over a string group containing missing values is not judged",
 ]
 REACH = {"quick": {"default-yielding-group": 300, "form:vector": 5000, "form:groupwise": 5000, "kind:str": 300, "kind:date": 300, "vector-empty": 50}}
